@@ -277,3 +277,63 @@ Proof.
   - destruct (mv_put e m) as [m1|] eqn:P; [|discriminate]. intros H.
     rewrite (IH m1 H). rewrite (mv_put_keys e m m1 x P). split; intros; intuition (subst; auto).
 Qed.
+
+(* ---------- versions are strictly decreasing in time ---------- *)
+Fixpoint desc_ts (l : versions) : Prop :=
+  match l with
+  | [] => True
+  | x :: r => Forall (fun y => snd y < snd x) r /\ desc_ts r
+  end.
+Definition mv_tsorted (m : mvmap) : Prop := Forall (fun kv => snd kv <> [] /\ desc_ts (snd kv)) m.
+
+Lemma mv_put_tsorted e m m' : mv_tsorted m -> mv_put e m = Some m' -> mv_tsorted m'.
+Proof.
+  destruct e as [[k v] t]. unfold mv_tsorted. revert m'.
+  induction m as [|[k' vs] m IH]; intros m' T; simpl.
+  - intros H; inversion H; subst. constructor; auto. simpl. split; [discriminate | auto].
+  - apply Forall_cons_iff in T as [T1 T2]. destruct (bcmp k k').
+    + destruct vs as [|[v0 t0] vs].
+      * intros H; inversion H; subst. constructor; auto. simpl. split; [discriminate | auto].
+      * destruct (N.ltb_spec t t0) as [La | La]; [discriminate|].
+        destruct (N.ltb_spec t0 t) as [Lb | Lb]; intros Hq; inversion Hq; subst.
+        -- constructor; auto. simpl in *. destruct T1 as [_ [T1 T3]]. split; [discriminate|]. split; auto.
+           constructor; auto. rewrite Forall_forall in *. intros y Hy. specialize (T1 y Hy). lia.
+        -- constructor; auto.
+    + intros H; inversion H; subst. constructor; [|constructor; auto]. simpl. split; [discriminate | auto].
+    + cbn [mv_put] in IH. destruct (mv_put (k, v, t) m) as [r'|]; [|discriminate].
+      intros H; inversion H; subst. constructor; auto.
+Qed.
+
+Lemma mv_insert_tsorted kvts m m' : mv_tsorted m -> mv_insert kvts m = Some m' -> mv_tsorted m'.
+Proof.
+  revert m. induction kvts as [|e r IH]; intros m T; simpl.
+  - intros H; inversion H; subst; auto.
+  - destruct (mv_put e m) as [m1|] eqn:P; [|discriminate]. apply IH. eapply mv_put_tsorted; eauto.
+Qed.
+
+(* the scan the implementation performs over a version list (newest first): stop with "not found"
+   at the first version older than initialTs, return the first one not newer than finalTs *)
+Fixpoint scanl (i f : N) (l : versions) : option (bytes * N * N) :=
+  match l with
+  | [] => None
+  | (v, t) :: r =>
+      if t <? i then None
+      else if (f =? 0) || (t <=? f) then Some (v, t, N.of_nat (length l))
+      else scanl i f r
+  end.
+
+Lemma vs_between_none i f l : Forall (fun y => snd y < i) l -> vs_between i f l = None.
+Proof.
+  induction l as [|[v t] l IH]; intros H; simpl; auto.
+  apply Forall_cons_iff in H as [H1 H2]. simpl in H1. unfold in_window.
+  destruct (N.leb_spec i t); [lia|]. simpl. auto.
+Qed.
+
+Lemma scanl_between i f l : desc_ts l -> scanl i f l = vs_between i f l.
+Proof.
+  induction l as [|[v t] l IH]; intros D; auto. destruct D as [D1 D2].
+  cbn [scanl vs_between]. unfold in_window. destruct (N.ltb_spec t i) as [L | L].
+  - destruct (N.leb_spec i t); [lia|]. cbn [andb]. symmetry. apply vs_between_none.
+    rewrite Forall_forall in *. intros y Hy. specialize (D1 y Hy). simpl in D1. lia.
+  - destruct (N.leb_spec i t); [|lia]. cbn [andb]. destruct ((f =? 0) || (t <=? f)); auto.
+Qed.
